@@ -7,6 +7,8 @@ import (
 	"os"
 	"path/filepath"
 	"regexp"
+	"runtime/debug"
+	"runtime/pprof"
 	"sort"
 	"strconv"
 	"strings"
@@ -108,6 +110,12 @@ func main() {
 	sweepPk := flag.String("sweep", "", "debug: sweep this package pattern")
 	flag.Parse()
 	t0 := time.Now()
+	debug.SetGCPercent(800) // term DAGs are long-lived; collect rarely
+	if pf := os.Getenv("VERIF_PROF"); pf != "" {
+		f, _ := os.Create(pf)
+		pprof.StartCPUProfile(f)
+		defer pprof.StopCPUProfile()
+	}
 	seed := 0
 	if s := os.Getenv("VERIF_SEED"); s != "" {
 		seed, _ = strconv.Atoi(s)
@@ -298,6 +306,9 @@ func main() {
 	var oblList []map[string]interface{}
 	for _, o := range obls {
 		totalMs += o.Ms
+		if o.Ms > 3000 && os.Getenv("VERIF_DEBUG") != "" {
+			fmt.Fprintf(os.Stderr, "slow: %d ms %s %s [%s]\n", o.Ms, o.Solver, o.Name, o.Status)
+		}
 		entry := map[string]interface{}{"name": o.Name, "kind": o.Kind, "status": o.Status, "solver": o.Solver, "ms": o.Ms}
 		if o.Src != "" {
 			entry["clause"] = o.Src
